@@ -47,7 +47,7 @@ func (c04) Runs(tier string) int {
 }
 func (c04) RequiredProbes(string) []string { return []string{"reached_controller"} }
 
-var c04Targets = []string{"sibling", "outside", "versions", "sidecar", "iam", "other-upload", "own-parent"}
+var c04Targets = []string{"sibling", "outside", "versions", "sidecar", "iam", "other-upload", "own-parent", "bucket-itself"}
 var c04Encs = []string{"raw", "pct", "double", "mixed", "backslash", "nul", "unicode", "overlong", "lead-slash", "dot-slash", "dbl-slash", "abs"}
 
 func (c04) Gen(seed uint64, run int, tier string) *core.Case {
@@ -164,6 +164,10 @@ func c04Hostile(p *c04Prog, fx *routes.Fixture, baseDepth int) (decoded string, 
 		if p.Target != "own-parent" && p.Enc != "abs" {
 			val = "a/" + "../" + val
 		}
+	}
+	if p.Target == "bucket-itself" {
+		// a value that names no object at all but resolves to the directory of the named bucket
+		val = []string{"/", "//", "./", "x/..", "x/../", "."}[p.Depth%6]
 	}
 	decoded = val
 	enc := func(s string) string { return s3c.URIEncode(s, true) }
@@ -432,6 +436,12 @@ func (c04) Exec(c *core.Case) (out *core.Outcome) {
 				abs = filepath.Join(e.Dirs.Root, pa)
 			}
 			abs = filepath.Clean(abs)
+			if si.Mutate && named != "" && abs == filepath.Join(e.Dirs.Root, named) && rt.ID != "DeleteBucket" && rt.ID != "CreateBucket" &&
+				(strings.Contains(si.Name, "Remove") || strings.Contains(si.Name, "Rename") || strings.Contains(si.Name, "Rmdir") || strings.Contains(si.Name, "Unlink") ||
+					(si.Name == "xattr.Set" && rt.Shape == "object")) {
+				// an operation on an object (or any bucket setting) removes or renames the bucket directory itself
+				escapes = append(escapes, touch{si.Name, abs, "own-bucket-directory", true})
+			}
 			if !within(abs) {
 				escapes = append(escapes, touch{si.Name, abs, classify(abs), si.Mutate})
 			}
@@ -470,7 +480,7 @@ func (c04) Exec(c *core.Case) (out *core.Outcome) {
 				continue
 			}
 			seen[k] = true
-			o.Violate("escape", fmt.Sprintf("C04/%s/%s/%s", p.Param, eff, t.where), "%s: while serving it the gateway called %s on %s, outside the storage of the bucket the request names", desc, t.call, strings.Replace(t.path, base, "$B", 1))
+			o.Violate("escape", fmt.Sprintf("C04/%s/%s/%s", p.Param, eff, t.where), "%s: while serving it the gateway called %s on %s, outside the storage of the bucket the request names (or on the bucket directory itself)", desc, t.call, strings.Replace(t.path, base, "$B", 1))
 		}
 	}
 	// storage outside the named bucket must be unchanged
